@@ -119,7 +119,8 @@ def run(ctx):
                 sm, fmt = "r.Redacted => !", "html"
             args = [common.PY, "-m", "mammoth.cli", path]
             outdir = os.path.join(d, "out")
-            outpath = os.path.join(d, "result.out")
+            # (the name of the output file says nothing about the format: that is --output-format's business)
+            outpath = os.path.join(d, rng.choice(["result.out", "result.md", "RESULT.MD", "notes.markdown", "page.html", "out.txt", "noextension"]))
             if mode == "path":
                 args.append(outpath)
             elif mode == "output_dir":
